@@ -104,6 +104,15 @@ def h_suite(ka: int, kb: int, amode: int, level: int) -> bool:
     return reach(L.untraced(L.run_suite, ka, kb, amode, level))
 
 
+def h_suite_small(ka: int, kb: int, amode: int, level: int) -> bool:
+    """
+    pre: 0 <= ka < 8 and 0 <= kb < 8 and 0 <= amode <= 1 and 0 <= level <= 2
+    post: _
+    """
+    # quick tier of h_suite: both test cases from the first 8 kinds
+    return reach(L.untraced(L.run_suite, ka, kb, amode, level))
+
+
 def h_factory(part: int, seed: int, inserts: int, amode: int, level: int) -> bool:
     """
     pre: 0 <= part < 5 and 30 * part <= seed < 30 * part + 30 and 1 <= inserts <= 3 and 0 <= amode <= 1 and 0 <= level <= 2
@@ -183,7 +192,7 @@ def obligations(tier: str):
         Chx("noassert", h_noassert, timeout=T),
         Chx("raise", h_raise, timeout=T),
         Chx("assertion", h_assertion, timeout=T, split={"black": [False, True]}),
-        Chx("suite", h_suite, timeout=T, split={"ka": list(range(8 if quick else 14))}),
+        Chx("suite", h_suite_small, timeout=T, split={"amode": [0, 1]}) if quick else Chx("suite", h_suite, timeout=T, split={"amode": [0, 1]}),
         Chx("factory", h_factory, timeout=T, split={"part": [0] if quick else [0, 1, 2, 3, 4]}),
         Chx("file", h_file, timeout=T),
     ]
